@@ -2,5 +2,6 @@ SPECIFICATION Spec
 INVARIANT NeverFabricates
 INVARIANT FullFileReadsAll
 INVARIANT Tiles
+INVARIANT AnalyticSizes
 CONSTRAINT EmitConstraint
 CHECK_DEADLOCK FALSE
